@@ -401,8 +401,12 @@ func verifCollect[K comparable, V any](m *Map[K, V]) []Tuple[K, V] {
 //@       (forall i int :: {(*unbox(dst, *[]any))[i]} 0 <= i && i < old(len(*unbox(dst, *[]any))) ==> (*unbox(dst, *[]any))[i] == old((*unbox(dst, *[]any))[i]))
 //@   ensures [other] !typeis(dst, *S) && !typeis(dst, *[]S) && !typeis(dst, *[]any) && !typeis(dst, *string) && !typeis(dst, *[]string) ==> ret != nil && unchanged()
 
-// Unmarshal is given its frame only here: it may write anything reachable from
-// dst (stated coarsely as "everything"); functional clauses are added by the
-// properties that need them.
+// Unmarshal is reflection-driven and has no body the VC generator can follow.
+// ASSUMED frame: it writes only objects reachable from dst (and objects it
+// allocates); it reads src. reach(dst) is usable at a call site when dst is an
+// object the calling function created and has not shared, and is "everything"
+// otherwise.
 //@ func Unmarshal
-//@   assigns everything
+//@   trusted
+//@   assigns reach(dst)
+//@   note ASSUMED: ordered.Unmarshal writes only memory reachable from dst plus new objects (it never writes src, package state or anything else)
